@@ -181,6 +181,30 @@ func buildOps(data []byte, lockLow bool, maxPerKind int) ([]op, error) {
 		}
 		s, serr := h.low.Schema(tn)
 		if serr != nil {
+			// a definition the library refuses: the calls on it stay in the catalogue - they have to fail the same
+			// way every time (alone, after a fault, next to other goroutines)
+			add(op{name: "Select/" + tn + " (refused definition)", kind: "Select", highLvl: true, table: tn, run: func(h *handle, _ int) opResult {
+				return runOp(func(c *collector) error {
+					return h.hi.Select(tn, func(r sqlittle.Row) { c.add(r) }, "rowid")
+				}, 0)
+			}})
+			add(op{name: "Columns/" + tn + " (refused definition)", kind: "Columns", highLvl: true, table: tn, run: func(h *handle, _ int) opResult {
+				return runOp(func(c *collector) error {
+					cs, err := h.hi.Columns(tn)
+					for _, x := range cs {
+						c.add([]hx.Value{x})
+					}
+					return err
+				}, 0)
+			}})
+			add(op{name: "Schema/" + tn + " (refused definition)", kind: "Schema", table: tn, run: func(h *handle, _ int) opResult {
+				return runOp(func(c *collector) error {
+					return withLow(h, lockLow, func() error {
+						_, err := h.low.Schema(tn)
+						return err
+					})
+				}, 0)
+			}})
 			continue
 		}
 		if maxPerKind > 0 && nTab >= maxPerKind {
